@@ -201,9 +201,9 @@ def oracle_conv(S, T, v):
         exact = (r == v)
         ok = "OK " + fp_bits(T, float(r))
         if not (lo <= r <= hi):
-            # static_cast<S>(value) with value outside the range of S: undefined behaviour in the code.
-            # The property allows the rounded value or an out_of_range report.
-            return "UB", {ok, "OOR"}
+            # the rounded value is 2^digits: refused by the "value < ldexp(1, digits)" guard (fix 30e94fb; the
+            # cast back would be undefined behaviour).  The property allows the rounded value or out_of_range.
+            return "OOR", {ok, "OOR"}
         if exact:
             return ok, {ok}
         return "OOR", {ok, "OOR"}
@@ -265,9 +265,8 @@ def oracle_line(line):
     if op == "policyx" and not is_int_case(t):
         T = t[1]
         old = "NAN" if fp_is_nan(T, t[2]) else t[2].lower().rjust(FP[T][4], "0")
-        a = ("EXC ParsingError " + old) if t[4] == "T" else ("NOTLOADED " + old)
         good = ("EXC MismatchedTypes " + old) if t[4] == "T" else ("NOTLOADED " + old)
-        return a, {good}
+        return good, {good}
     return None, None
 
 
